@@ -1,0 +1,73 @@
+//go:build verif
+
+package rbac
+
+// Contracts checked by /verif (contract-based deductive verification).
+// This file is comment-only; it is compiled only with -tags=verif.
+
+//@ import codes "google.golang.org/grpc/codes"
+//@ import v3rbacpb "github.com/envoyproxy/go-control-plane/envoy/config/rbac/v3"
+
+// ---- C48: the decision rule of the RBAC engine chain ---------------------------------------------
+//
+// Engines are consulted in order with the same request data. The RPC is denied
+// (PERMISSION_DENIED) at the first ALLOW engine none of whose policies matches
+// and at the first DENY engine one of whose policies matches; it is authorized
+// only after every engine let it pass. Unreadable request data is INTERNAL.
+
+//@ func (*ChainEngine).IsAuthorized
+//@   prop C48
+//@   requires cre != nil
+//@   loop 1 invariant cre != nil && ncalls("logRequestDetails") == 0
+//@   assert at call Errorf#2 arg0 == codes.Internal && err != nil && ncalls("findMatchingPolicy") == 0
+//@   assert at call findMatchingPolicy#1 arg0 == engine && arg1 == rpcData && err == nil
+//@   assert at call logRequestDetails#1 engine.action == v3rbacpb.RBAC_ALLOW && !ok
+//@   assert at call Errorf#3 arg0 == codes.PermissionDenied && ncalls("logRequestDetails") == 1
+//@   assert at call logRequestDetails#2 engine.action == v3rbacpb.RBAC_DENY && ok
+//@   assert at call Errorf#4 arg0 == codes.PermissionDenied && ncalls("logRequestDetails") == 1
+//@   assert at call doAuditLogging#3 arg0 == engine && arg3 == true && !(engine.action == v3rbacpb.RBAC_ALLOW && !ok) && !(engine.action == v3rbacpb.RBAC_DENY && ok)
+//@   assert at call doAuditLogging#1 arg3 == false
+//@   assert at call doAuditLogging#2 arg3 == false
+
+// an engine reports a match only for a policy whose matcher matched
+//@ func (*engine).findMatchingPolicy
+//@   prop C48
+//@   loop 1 invariant e != nil
+//@   assert at call match#1 arg0 == matcher && arg1 == rpcData
+//@   assert at return 1 result1 && lastret("match") == 1 && result0 == policy
+//@   assert at return 2 !result1 && result0 == ""
+
+// a policy matches iff one of its permissions and one of its principals match
+//@ func (*policyMatcher).match
+//@   prop C48
+//@   assert at call match#1 arg0 == pm.permissions && arg1 == data
+//@   assert at call match#2 arg0 == pm.principals && arg1 == data && lastret("match#1") == 1
+//@   ensures result == (lastret("match#1") == 1 && ncalls("match") == 2 && lastret("match#2") == 1)
+
+// or: true as soon as (and only when) a child matched; and: false as soon as (and
+// only when) a child did not match; not: the negation of its child; any / never.
+//@ func (*orMatcher).match
+//@   prop C48
+//@   loop 1 invariant Z(ncalls("match")) == Z(rangeindex) + 1 && len(om.matchers) == old(len(om.matchers))
+//@   assert at call match#1 arg0 == data
+//@   assert at return 1 result && lastret("match") == 1
+//@   assert at return 2 !result && Z(ncalls("match")) == Z(len(om.matchers))
+
+//@ func (*andMatcher).match
+//@   prop C48
+//@   loop 1 invariant Z(ncalls("match")) == Z(rangeindex) + 1 && len(am.matchers) == old(len(am.matchers))
+//@   assert at call match#1 arg0 == data
+//@   assert at return 1 !result && lastret("match") == 0
+//@   assert at return 2 result && Z(ncalls("match")) == Z(len(am.matchers))
+
+//@ func (*notMatcher).match
+//@   prop C48
+//@   assert at call match#1 arg0 == data
+//@   ensures result == (lastret("match") == 0)
+
+//@ func (*alwaysMatcher).match
+//@   prop C48
+//@   ensures result
+//@ func (*neverMatcher).match
+//@   prop C48
+//@   ensures !result
